@@ -173,8 +173,9 @@ def gen_history(run_seed: int, tier: str, plugin: Optional[str] = None) -> Dict[
     out_depth = r.choice([0, 0, 1, 3, 5])
     out_odd = out_depth > 0 and r.random() < 0.5
     crlf_main = use_test_dir and r.random() < 0.25
+    out_symlink = r.random() < 0.1
     return {"run_seed": run_seed, "plugin": plugin, "model": M, "ops": ops, "finals": finals, "test_dir": use_test_dir, "out_depth": out_depth,
-            "out_odd": out_odd, "crlf_main": crlf_main}
+            "out_odd": out_odd, "crlf_main": crlf_main, "out_symlink": out_symlink}
 
 
 # --------------------------------------------------------------------------------------------
@@ -240,7 +241,7 @@ def execute(h: Dict[str, Any]) -> Dict[str, Any]:
     probes = {k: 0 for k in ["stale_owned_placed", "stale_realname_placed", "foreign_placed", "empty_pkg_dir_placed", "committed_copy_placed",
                              "cleanup_removed_stale", "stale_overwritten", "fault_fired", "fault_not_reached", "faulted_run_failed",
                              "faulted_run_left_partial", "other_plugin_tree", "merge_files", "different_model_before", "listing_permuted",
-                             "test_dir_used", "uuid_checked", "ascii_locale", "clock_shifted", "long_output_path", "crlf_main_rs"]}
+                             "test_dir_used", "uuid_checked", "ascii_locale", "clock_shifted", "long_output_path", "crlf_main_rs", "symlinked_output_dir", "python_optimize", "path_spelled_relative_or_odd"]}
     faults_fired: Dict[str, int] = {}
     evlog: List[Any] = []
     try:
@@ -271,6 +272,13 @@ def execute(h: Dict[str, Any]) -> Dict[str, Any]:
             out = out / (["nested-output-location-%02d-" % i_ + "x" * 14, "build [v1]", "out*put?", "with space & co"][i_ % 4] if h.get("out_odd") else "nested-output-location-%02d-" % i_ + "x" * 14)
         if h.get("out_depth"):
             probes["long_output_path"] += 1
+        if h.get("out_symlink"):
+            # the output directory is a symbolic link to a directory elsewhere
+            real = w.path("real-location-of-output")
+            real.mkdir(parents=True)
+            out.parent.mkdir(parents=True, exist_ok=True)
+            os.symlink(real, out)
+            probes["symlinked_output_dir"] += 1
         td = w.path("td")
         if h.get("test_dir") and pristine_main.exists():
             (td / "src").mkdir(parents=True)
@@ -356,6 +364,10 @@ def execute(h: Dict[str, Any]) -> Dict[str, Any]:
                 probes["ascii_locale"] += 1
             if env.get("clock_offset"):
                 probes["clock_shifted"] += 1
+            if env.get("optimize"):
+                probes["python_optimize"] += 1
+            if env.get("path_style") not in (None, "abs"):
+                probes["path_spelled_relative_or_odd"] += 1
             evlog.append(["FINAL", rj["rc"], len(rj["events"])])
             if rj["rc"] != 0:
                 last = rj["stderr_tail"].strip().splitlines()[-1][:300] if rj["stderr_tail"].strip() else "no stderr"
@@ -398,7 +410,7 @@ def execute(h: Dict[str, Any]) -> Dict[str, Any]:
         w.destroy()
     return {"run_seed": h["run_seed"], "violations": viol, "harness": None, "probes": probes, "faults_fired": faults_fired,
             "invocations": inv, "digest": core.digest([h["plugin"], h["model"], evlog]), "plugin": plugin, "evlog": evlog,
-            "nontrivial": bool(h["ops"]) or any(e.get("hashseed") != "0" or e.get("ls_seed") is not None or e.get("locale") or e.get("clock_offset") for e in h["finals"])}
+            "nontrivial": bool(h["ops"]) or any(e.get("hashseed") != "0" or e.get("ls_seed") is not None or e.get("locale") or e.get("clock_offset") or e.get("optimize") or e.get("path_style") not in (None, "abs") for e in h["finals"])}
 
 
 def gm_leak(ref_main: Optional[bytes], td: pathlib.Path, ids: set) -> bool:
@@ -448,6 +460,7 @@ def minimise(h: Dict[str, Any], sig: str) -> Tuple[Dict[str, Any], Dict[str, Any
         lambda c: c.update(out_depth=0),
         lambda c: c.update(out_odd=False),
         lambda c: c.update(crlf_main=False),
+        lambda c: c.update(out_symlink=False),
         lambda c: c["model"].pop("split", None),
         lambda c: c["model"].pop("compact", None),
         lambda c: c["model"].update(n_edits=0),
@@ -660,7 +673,7 @@ def main(argv: List[str]) -> int:
         "skipped_reference_failed": skipped,
         "determinism": {"rerun_other_worker_count": det_checked, "mismatches": det_mismatch},
         "real_vs_stub": {"real": ["generator CLI, model loader, all four plugins (current working tree)", "CPython, pathlib, json, file system (tmpfs)"],
-                         "simulated": ["PYTHONHASHSEED", "uuid.uuid4 stream", "default text encoding (ASCII C locale vs UTF-8)", "wall clock (time.time/localtime/strftime, datetime.now/today shifted by days or years between runs)", "location of the model files and of the output directory", "os.scandir/os.listdir order", "process kill / ENOSPC / EIO at write-open, during write (torn), at unlink, at mkdir",
+                         "simulated": ["PYTHONHASHSEED", "uuid.uuid4 stream", "default text encoding (ASCII C locale vs UTF-8)", "wall clock (time.time/localtime/strftime, datetime.now/today shifted by days or years between runs)", "location and spelling (relative, trailing slash, ..) of the output directory, symlinked output directory, location of the model files", "python -O / -OO", "os.scandir/os.listdir order", "process kill / ENOSPC / EIO at write-open, during write (torn), at unlink, at mkdir",
                                        "initial directory contents"], "stub": []},
         "violation_signatures": sorted(first_fail),
     }
